@@ -89,8 +89,26 @@ class ImplPool:
         self.n = n
         self.timeout = timeout
         self.workers = [_Worker(scratch, env_extra) for _ in range(n)]
+        # for properties that say nothing about running time: a task that hit the deadline is run a
+        # second time; only a task that times out twice is reported as Timeout (the first attempt is
+        # recorded in the result and counted)
+        self.retry_timeouts = False
+        self.timeouts_retried = 0
 
     def map(self, tasks, timeout=None):
+        results = self._map(tasks, timeout)
+        if self.retry_timeouts:
+            again = [i for i, r in enumerate(results) if r.get('err') == 'Timeout']
+            if again:
+                second = self._map([tasks[i] for i in again], timeout)
+                for i, r in zip(again, second):
+                    r['_first_attempt'] = 'Timeout'
+                    results[i] = r
+                    if r.get('err') != 'Timeout':
+                        self.timeouts_retried += 1
+        return results
+
+    def _map(self, tasks, timeout=None):
         timeout = timeout or self.timeout
         results = [None] * len(tasks)
         q = queue.Queue()
